@@ -1,7 +1,7 @@
 """C07 - metadata nodes leave no trace in the markup (metamorphic: with == without).
 
 positions    : every position of one / two metadata nodes in every sibling sequence of length <= 3 over 13 sibling
-               kinds under 7 kinds of parent, three indent / eol settings                      (exhaustive)
+               kinds under 9 kinds of parent, three indent / eol settings                      (exhaustive)
 with-without : random layout trees with metadata at generated positions                       (Hypothesis)
 """
 
@@ -258,7 +258,7 @@ def _body(case, note):
 import itertools
 
 POS_KINDS = ["block", "inline", "void-block", "void-inline", "text", "text-leading-newline", "text-trailing-newline", "text-trailing-space", "blank", "empty", "html", "html-newline", "repr"]
-POS_PARENTS = ["block", "inline", "pre", "textarea", "list", "void", "script"]
+POS_PARENTS = ["block", "inline", "pre", "textarea", "list", "void", "script", "title", "option"]
 
 
 def _pos_node(kind):
@@ -293,7 +293,7 @@ def enum_positions(tier):
 def _pos_wrap(parent, kids):
     if parent == "list":
         return kids
-    name, ws = {"block": ("section", True), "inline": ("em", False), "pre": ("pre", False), "textarea": ("textarea", False), "void": ("input", False), "script": ("script", True)}[parent]
+    name, ws = {"block": ("section", True), "inline": ("em", False), "pre": ("pre", False), "textarea": ("textarea", False), "void": ("input", False), "script": ("script", True), "title": ("title", True), "option": ("option", True)}[parent]
     return [{"k": "tag", "name": name, "ws": ws, "attrs": [], "kids": kids}]
 
 
